@@ -9,6 +9,7 @@ import (
 	"os"
 
 	"github.com/coredhcp/coredhcp/zzverif/allocsim"
+	"github.com/coredhcp/coredhcp/zzverif/fscal"
 	"github.com/coredhcp/coredhcp/zzverif/netsim"
 	"github.com/coredhcp/coredhcp/zzverif/report"
 	"github.com/coredhcp/coredhcp/zzverif/simrt"
@@ -51,6 +52,14 @@ func main() {
 			sum := allocsim.Summarise(r, *prop, *full, *known)
 			sum.Index = i
 			enc.Encode(sum)
+		}
+	case "fscal":
+		lines, bad := fscal.Run()
+		for _, l := range lines {
+			fmt.Println(l)
+		}
+		if bad > 0 {
+			os.Exit(1)
 		}
 	case "netsim":
 		if *replay != "" {
